@@ -1133,12 +1133,16 @@ fn append_compiled_clause(
                 .opt_arg_index_key
                 .switch_on_term_loc()
             {
-                Some(_) => {
+                Some(index_loc) => {
+                    // the choice instruction in front of the block's indexing
+                    // code. (clause_start - 2 is that location only for the
+                    // first clause of the block, and the first clause of a
+                    // dynamic predicate's block may have been retracted.)
                     if lower_bound == 0 {
-                        code_ptr_opt = Some(skeleton.clauses[lower_bound].clause_start - 2);
+                        code_ptr_opt = Some(index_loc - 1);
                     }
 
-                    find_outer_choice_instr(code, skeleton.clauses[lower_bound].clause_start - 2)
+                    find_outer_choice_instr(code, index_loc - 1)
                 }
                 None => {
                     if lower_bound == 0 {
